@@ -76,7 +76,7 @@ def main():
             try:
                 msg = st()
                 check('%s oracle self-check' % pid, True)
-                if msg:
+                if msg and isinstance(msg, str):
                     print('     ' + msg)
             except Exception as e:      # noqa: BLE001
                 check('%s oracle self-check' % pid, False, repr(e))
